@@ -145,6 +145,7 @@ class Interp(ExprMixin):
         self.cur_where = ""
         self.loop_ctx: List[Any] = []
         self.shared: Dict[str, Any] = {}
+        self.shared_objs: Dict[str, V] = {}
         self.global_choice: Dict[str, int] = {}
         self.summarise_funcs: set = set()
         self.eager_typeof = False
@@ -205,6 +206,7 @@ class Interp(ExprMixin):
         self.truth = {}
         self.loop_ctx = []
         self.global_choice = {}
+        self.shared_objs = {}
 
     def choose(self, n: int, tag: str = "") -> int:
         if n <= 0:
@@ -472,7 +474,8 @@ class Interp(ExprMixin):
                 else:
                     base.opaque_keys.append((idx, v))
                 if getattr(base, 'created_in', None) != self._frame_id():
-                    self.event("mutate", target=_describe(base), op="setitem")
+                    self.event("mutate", target=getattr(base, "shared_name", None) or _describe(base)[:60], op="setitem",
+                               shared=getattr(base, "shared_name", None), keyv=idx, valv=v)
             elif isinstance(base, PyList) and isinstance(idx, Const) and isinstance(idx.v, int) and -len(base.items) <= idx.v < len(base.items):
                 base.items[idx.v] = v
                 self.event("mutate", target=_describe(base), op="setitem")
